@@ -107,6 +107,7 @@ type BufferedWriteSyncer struct {
 	ticker      *time.Ticker
 	stop        chan struct{} // closed when flushLoop should stop
 	done        chan struct{} // closed when flushLoop has stopped
+	flushed     chan struct{} // closed when Stop has flushed the remaining data
 }
 
 func (s *BufferedWriteSyncer) initialize() {
@@ -128,6 +129,7 @@ func (s *BufferedWriteSyncer) initialize() {
 	s.writer = bufio.NewWriterSize(s.WS, size)
 	s.stop = make(chan struct{})
 	s.done = make(chan struct{})
+	s.flushed = make(chan struct{})
 	s.initialized = true
 	go s.flushLoop()
 }
@@ -188,6 +190,9 @@ func (s *BufferedWriteSyncer) flushLoop() {
 // Stop closes the buffer, cleans up background goroutines, and flushes
 // remaining unwritten data.
 func (s *BufferedWriteSyncer) Stop() (err error) {
+	// Set if another Stop call has stopped, or is stopping, the syncer.
+	var flushed chan struct{}
+
 	// Critical section.
 	stopped := func() bool {
 		s.mu.Lock()
@@ -198,6 +203,7 @@ func (s *BufferedWriteSyncer) Stop() (err error) {
 		}
 
 		if s.stopped {
+			flushed = s.flushed
 			return false
 		}
 		s.stopped = true
@@ -209,8 +215,14 @@ func (s *BufferedWriteSyncer) Stop() (err error) {
 
 	// Not initialized, or already stopped, no need for any cleanup.
 	if !stopped {
+		if flushed != nil {
+			// A concurrent Stop may still be flushing the remaining data:
+			// do not return before it is done.
+			<-flushed
+		}
 		return
 	}
+	defer close(s.flushed)
 
 	// Wait for flushLoop to end outside of the lock, as it may need the lock to complete.
 	// See https://github.com/uber-go/zap/issues/1428 for details.
